@@ -559,9 +559,9 @@ func ruleDur4(c *Ctx, r *Reporter) {
 	}
 	r.guard(len(fns), 8, "functions in store.go, file.go, dbkit/atomic.go")
 	allowed := map[string]string{
-		"dbkit.AtomicWriteFile$1|os.File.Close":     "best-effort cleanup of the temp file in the deferred closure (the real Close on the success path is checked)",
-		"dbkit.AtomicWriteFile$1|os.Remove":         "best-effort removal of the temp file in the deferred closure (a no-op after a successful rename)",
-		"dbkit.AtomicWriteFile|defer os.File.Close": "closing the read-only directory handle after fsync",
+		"dbkit.AtomicWriteFile$closure|os.File.Close": "best-effort cleanup of the temp file in the deferred closure (the real Close on the success path is checked)",
+		"dbkit.AtomicWriteFile$closure|os.Remove":     "best-effort removal of the temp file in the deferred closure (a no-op after a successful rename)",
+		"dbkit.AtomicWriteFile|defer os.File.Close":   "closing the read-only directory handle after fsync",
 	}
 	n := 0
 	for _, fn := range fns {
@@ -616,7 +616,7 @@ func ruleDur4(c *Ctx, r *Reporter) {
 				r.ok(key, c.pos(in.Pos()), "error value is consumed (tested or returned)")
 				return
 			}
-			if why, ok := allowed[funcName(fn)+"|"+name]; ok {
+			if why, ok := allowed[closureNeutral(funcName(fn))+"|"+name]; ok {
 				r.trivial(key, c.pos(in.Pos()), "listed exception: "+why)
 				return
 			}
@@ -639,4 +639,24 @@ func isReadOnlyHandleClose(ci ssa.CallInstruction) bool {
 		}
 	}
 	return false
+}
+
+// closureNeutral replaces the ordinal of an anonymous function (F$1, F$2, ...) by a fixed tag: adding another closure
+// to F renumbers them without changing what they do.
+func closureNeutral(name string) string {
+	out := []byte{}
+	for i := 0; i < len(name); i++ {
+		out = append(out, name[i])
+		if name[i] == '$' {
+			j := i + 1
+			for j < len(name) && name[j] >= '0' && name[j] <= '9' {
+				j++
+			}
+			if j > i+1 {
+				out = append(out, []byte("closure")...)
+				i = j - 1
+			}
+		}
+	}
+	return string(out)
 }
